@@ -234,6 +234,34 @@ def run(ctx):
                 "mods": [asm.ent_json(1, "generic:M:" + name, m1), asm.ent_json(2, "generic:M:" + name, m2)],
                 "pid": 1, "pname": 2, "clash": "vector-upstream"}
         ctx.guard(check_assembly, case)
+    # two junctions that are letter-by-letter complements of each other (AATG / TTAC): not a hairpin, a legal pair of
+    # fusion sites on both strands
+    comp = {"A": "T", "C": "G", "G": "C", "T": "A"}
+    for enz in asm.pick_enzymes(rng, ctx.budget(30, 600)):
+        site, off, k = gen.geom(enz)
+        if k < 2:
+            continue
+        fb = (site, gen.rc(site))
+        a = gen.rnd_avoid(rng, k, fb)
+        b = "".join(comp[c_] for c_ in a)
+        ovs = gen.distinct_overhangs(rng, k, 2, fb)
+        if len(ovs) < 2 or b == gen.rc(a) or a == gen.rc(a) or b == gen.rc(b) or len({a, b, ovs[0], ovs[1]}) < 4 \
+                or any(gen.rc(x) in (a, b, ovs[0], ovs[1]) for x in (a, b, ovs[0], ovs[1])) or any(x in y for x in fb for y in (a, b)):
+            continue
+        try:
+            vw, vd = gen.gen_vector(rng, enz, o5=a, o3=ovs[1], tries=200)
+            m1, _ = gen.gen_module(rng, enz, a, b, tries=200)
+            m2, _ = gen.gen_module(rng, enz, b, ovs[0], tries=200)
+            m3, _ = gen.gen_module(rng, enz, ovs[0], ovs[1], tries=200)
+        except RuntimeError:
+            continue
+        name = str(enz)
+        ms = [asm.ent_json(1, "generic:M:" + name, m1), asm.ent_json(2, "generic:M:" + name, m2),
+              asm.ent_json(3, "generic:M:" + name, m3)]
+        rng.shuffle(ms)
+        ctx.guard(check_assembly, {"enz": name, "vector": asm.ent_json(0, "generic:V:" + name, vw), "mods": ms,
+                                   "pid": 1, "pname": 2})
+        ctx.note("complementary-junctions")
     if True:
         # the plasmids of the bundled registries that are typed by a signature-free class (the generic structures and
         # the kits' hand-written vectors, which are their own mirror image): a sample in the quick tier, all in thorough
